@@ -518,7 +518,7 @@ func c19r6(c *an.Ctx) {
 				return nil
 			}
 			// the slow paths re-read under the mutex by design
-			if callee.Name() == "setSlow" || callee.Name() == "signalSlow" {
+			if nameOf(callee) == "setSlow" || nameOf(callee) == "signalSlow" {
 				return nil
 			}
 			return callee
